@@ -70,6 +70,8 @@ func loadSpecLib(dir string) (*SpecLib, error) {
 				return 4
 			case "encode.smt2":
 				return 6
+			case "interp.smt2":
+				return 7
 			case "axioms.smt2":
 				return 8
 			case "lemmas.smt2":
